@@ -10,10 +10,17 @@ def _tag(line, out):
     w = line.split(" ")
     if w[0] == "fx":
         return "fx:" + w[1] + ":" + out.split(":")[0]
+    if w[0] in ("gs", "gf"):
+        if w[0] == "gf" and "err:" in out:
+            return "generalvalue:%s:%s:failing-set-store" % ("slice" if w[1].startswith("[]") else "scalar", w[1].lstrip("[]"))
+        return "generalvalue:%s:%s:%s" % ("slice" if w[1].startswith("[]") else "scalar",
+                                          "string" if w[1].endswith("string") else "bool" if w[1].endswith("bool") else "integer",
+                                          "refused" if out.endswith("err") else "%dsets" % min(len(w) - 3, 3))
     if w[0] == "ax":
         regs = sum(1 for x in w[2:] if x.startswith("r:"))
         acts = {x[2] for x in w[2:] if x.startswith("r:")}
-        return "atexit:%s:%s%s%s" % ("0regs" if regs == 0 else "1-3regs" if regs <= 3 else "4-15regs" if regs < 16 else "16+regs",
+        end = "exit" if w[1].isdigit() else "parse" if w[1].startswith("P") else "fatalapi"
+        return "atexit:%s:%s:%s%s%s" % (end + (":" + out.split(" ")[0] if end != "exit" else ""), "0regs" if regs == 0 else "1-3regs" if regs <= 3 else "4-15regs" if regs < 16 else "16+regs",
                                      "unreg" if any(x.startswith("u") for x in w[2:]) else "nounreg",
                                      ":panics" if acts & set("sentz") else "", ":reentrant" if acts & set("xgu") else "")
     if " F 664c=" in line:
@@ -26,7 +33,7 @@ def _tag(line, out):
     f = ""
     if " F " in line:
         f = ":rawfiles" if "=" in line.split(" F ", 1)[1].split(" A ", 1)[0].split(" R ", 1)[0] else ":files"
-    if " B" in line and "B" in w:
+    if "B" in w or "C" in w:
         f += ":twice"
     if " O " in line:
         no = sum(1 for x in line.split(" O ", 1)[1].split(" ") if x.count(":") == 3)
@@ -53,7 +60,8 @@ HARDENING = {
                       "path (exit status and the presence of usage text are observed, not its wording)",
     "4 callback outcomes": "user Value.Set returning nil, a fresh error, a reused sentinel, a typed-nil error; exit "
                            "functions that panic in five ways around the marker function; a writer that fails; "
-                           "unreadable response files (missing, directory)",
+                           "unreadable response files (missing, directory, a line of 64 KiB or more); exit "
+                           "functions that Register / Unregister / call Exit while the exit is running",
     "5 aliasing and reuse": "argument slices with spare capacity 0..1000 (prefix of a larger array); several "
                             "arguments after an @file; a second Parse on the same CmdLine, naming a response file again",
     "6 history shapes": "empty vector, only `--`, only an @file, empty file, file of blank lines, the same option "
@@ -78,7 +86,14 @@ def run(ctx):
         "line by the generator (section R)",
         "response files are a finite map path -> lines; the harness writes them into a temporary directory, either as "
         "LF-terminated lines or from raw bytes (CRLF, missing final newline, blank lines, lone CR) which the model "
-        "splits like bufio.Scanner (Cmd.linesOf); lines of 64 KiB and more are outside the domain",
+        "splits like bufio.Scanner (Cmd.linesOf) and refuses as a whole when a line fills the scanner's 64 KiB buffer "
+        "(Cmd.readFile / Cmd.tooLong: loadArgsFromFile returns scanner.Err(), Parse exits); long-line files are given "
+        "run-length encoded (tag longline:*)",
+        "atexit (Register / Unregister / Exit) is the model AtExit.*: `ax` lines are a history of Register / Unregister "
+        "calls in a child process whose exit functions print their number and then do nothing, panic in five ways, call "
+        "Exit again, Register or Unregister; the process ends by a direct Exit(n), by FatalMsg / FatalError / "
+        "FatalIfError, or by Parse of a malformed / help / version / valid vector (Cmd.processEnd: the outcome of Parse "
+        "decides between returning and Exit(status)); compared are the functions run, in order, and the exit status",
         "harness-side variations that must not change the result are derived from a hash of the line: spare capacity "
         "of the argument slice (0..1000), SetUsage/SetArg/SetDefault calls, SetWriter(os.Stdout) in the child, exit "
         "functions that panic (string, error, runtime error, typed nil, nil) registered before/after the marker, the "
@@ -86,7 +101,8 @@ def run(ctx):
         "the text of error / usage / version messages is not compared; observed are: option variables, remaining "
         "arguments, exit status (1 = fatal or help, 0 = version), that the exit went through atexit.Exit",
     ]
-    ctx.assumptions += ["response-file arguments contain no newline; lines < 64 KiB"]
+    ctx.assumptions += ["response-file arguments contain no newline",
+                        "bufio.MaxScanTokenSize = 65536 (Cmd.maxToken; the long-line streams straddle it on every run)"]
     ctx.extra["not_claimed_observations"] = [
         "a first positional that starts with `-` (other than a lone `-`) or `@` without a preceding `--` is an option / response file by "
         "construction",
@@ -94,9 +110,16 @@ def run(ctx):
         "(Props.C10.observation_reference_in_value_position)",
     ]
     ctx.extra["hardening_audit"] = HARDENING
+    import time
+    t0 = time.time()
     ctx.lean(props=["Props.C10"], drivers=["drv_c10"])
+    t1 = time.time()
     ctx.harness("./cmd/c10")
+    t2 = time.time()
+    ctx.extra["phase_seconds"] = {"lean (incl. waiting for the shared Lean lock)": round(t1 - t0, 1),
+                                  "go build": round(t2 - t1, 1)}
     ctx.diff(area="parse", driver="drv_c10", n={"quick": 60000, "thorough": 800000}, shards=14,
              trivial=_trivial, tagger=_tag,
-             theorem="C10.parse_render / response_split / malformed_* (Props/C10.lean) are about the model; "
+             theorem="C10.parse_render / response_split* / malformed_* / exit_after_history (Props/C10.lean) are about the model; "
                      "the implementation differs from the model on this argument vector")
+    ctx.extra["phase_seconds"]["correspondence run"] = round(time.time() - t2, 1)
